@@ -1016,6 +1016,10 @@ func constPar1(w *World, r *Report) {
 			}
 			apps, _ := appendWeb(c.Common().Args[0])
 			for _, ap := range apps {
+				// second pass over the entries just built: the bytes come from entry.header.Hash itself
+				if strings.HasSuffix(deepPathSliceBase(ap.Call.Args[1]), ".header.Hash") {
+					okW = true
+				}
 				if sl, ok := ap.Call.Args[1].(*ssa.Slice); ok {
 					if al, ok := sl.X.(*ssa.Alloc); ok {
 						// the appended bytes are the cell the stored Hash value was loaded from (or holds the same value)
@@ -1039,7 +1043,11 @@ func constPar1(w *World, r *Report) {
 	}
 	if fn := w.Fn("par1.readVolume"); fn != nil {
 		okR := false
-		for _, c := range callInstrs(fn) {
+		var rcalls []ssa.CallInstruction
+		for _, f := range region(fn) {
+			rcalls = append(rcalls, callInstrs(f)...)
+		}
+		for _, c := range rcalls {
 			if bc := isBuiltinCall(valueOfCall(c), "append"); bc != nil {
 				if strings.HasSuffix(deepPathSliceBase(bc.Call.Args[1]), ".header.Hash") {
 					okR = true
